@@ -160,6 +160,8 @@ def main_for(prop, run: core.Run, rule_extra: str, require=(), only=None):
         fcases = [{"engine": "F", "method": mth, "cap": 10, "cont": True, "load": "too_large", "casing": how}
                   for mth, how in ((("nearsquare", "lower"), ("rectangle", "capital")) if run.tier == "quick" else
                                    [(mth, how) for mth in ("nearsquare", "rectangle", "birectangle", "bizoned") for how in ("upper", "lower", "capital", "mixed")])]
+        # ... and runs that cannot meet the limits and were not asked to continue: they end with a ValueError, nothing else
+        fcases += [{"engine": "F", "method": mth, "cap": None, "cont": False, "load": "too_large", "casing": "upper"} for mth in (("nearsquare",) if run.tier == "quick" else ("nearsquare", "rectangle", "bizoned", "rowwise"))]
         run.drive(fcases, family="F", init_args=(prop, "B"), chunksize=1)
     if prop == "C02" and (not only or "S" in only):
         # sizing one real exchanger whose long-time table reaches beyond the allowed height window, loads far too large / far too small:
